@@ -7,6 +7,11 @@ CLAIMS = {
  'C01': ("exploration", "3.1", "Seeded search over client programs x schedules x faults on the real queue code: exactly-once counters, bounded liveness (60 simulated s after faults stop), gate mode for 'asynchronous forms do not wait'. Sampling, not proof: right level because the property quantifies over all interleavings of a lock-free state machine that no finite enumeration at source level covers."),
  'C02': ("exploration", "3.2", "Seeded schedules of mixed async/sync/barrier submissions on one serial queue (and the main queue); judged from call/return/start/end stamps: intervals disjoint, submission order kept."),
  'C03': ("exploration", "3.3", "Random target-queue hierarchies (serial or workloop bottoms, inactive+retargeted queues) under seeded schedules; at most one running item per hierarchy, per-queue FIFO."),
+ 'C05': ("exploration", "3.5", "Logic half of the property: every synchronous submission form returns only after its item's end stamp, and plain payload/result records written before each hand-off (submission, sync return, group wait/notify, semaphore wait, once) are complete when read, over seeded schedules. The hardware-visibility half is out of reach of any serialising simulator and is stated as such."),
+ 'C06': ("exploration", "3.6", "Seeded histories of suspend/resume/activate (nesting to 200, from items and from other threads) racing with submissions: no start while inactive or while definitely suspended from an own item, at most one committed start after an off-queue suspend of a serial queue, everything runs within 60 simulated s after the last resume."),
+ 'C07': ("exploration", "3.7", "Seeded histories of enter/leave/group_async/notify/wait over 1-2 groups; wait==0 and notify delivery are judged against the lower bound L(t)=enters returned - leaves called, time-outs against the simulated clock, exactly-once and nothing-left-behind at quiescence, group reuse."),
+ 'C08': ("exploration", "3.8", "Seeded histories of wait (forever/timed/poll) and signal on one semaphore with time-outs placed to race signals: successes <= v + signals started at every return, time-out not before the deadline, lost-signal and exact permit conservation at the end."),
+ 'C09': ("exploration", "3.9", "2-8 racing callers per predicate under seeded schedules: initialiser count == 1, no return before its end, nobody left blocked, later calls do not run it."),
  'C04': ("exploration", "3.4", "One concurrent queue (optionally narrowed / chained) with readers, barriers and apply under seeded schedules; barrier exclusion and before/after ordering from stamps."),
 }
 TECH = "deterministic simulation: real libdispatch threads serialised by a seeded baton scheduler (walk/PCT/stall strategies) with simulated clocks/futex/semaphores and injected faults; history oracles; ddmin-minimised replay tapes"
